@@ -14,6 +14,7 @@ HERE = os.path.dirname(os.path.abspath(__file__))
 sys.path.insert(0, HERE)
 import runimpl as R  # noqa: E402
 import runmodel as M  # noqa: E402
+import drive as D  # noqa: E402
 
 # programs small enough for the quick tier (number of transitions, measured)
 QUICK_MAX_PATHS = 1500
@@ -38,46 +39,16 @@ def main():
             st['programs_skipped_pool_state'] += 1      # the registry state is process-wide: covered by special_modes.py (c)
             continue
         R.ps.spec_defaults(spec)
-        it = M.Interner()
-        pools = tuple(spec.get('pools', [True, True]))
-        fields, _ = M.prog_fields(json.loads(json.dumps(spec)), it, pools=pools)
-        res = model.ask(M.sx(['paths'] + fields + [['wc', 1]]))
-        paths = res.get('paths')
-        if paths is None:
-            broken.append(dict(diffs=['explorer out of fuel for ' + c['name']], spec=spec, actions=[]))
-            continue
-        if tier == 'quick' and len(paths) > QUICK_MAX_PATHS:
-            # a rotating sample of the transitions of a big program in the quick tier, all of them in the thorough tier
-            paths = [p for j, p in enumerate(paths) if (j + seed) % (len(paths) // 300 + 1) == 0]
+        sample = (QUICK_MAX_PATHS, seed) if tier == 'quick' else None
+        n, bad, total = D.drive_all(model, spec, '_x' + c['name'][:14], st, sample=sample)
+        if tier == 'quick' and total > QUICK_MAX_PATHS:
             st['programs_sampled'] += 1
         else:
             st['programs_exhaustive'] += 1
-        built = None
-        n = 0
-        for p in paths:
-            acts = [a if a[0] != 'g' else ['g', a[1]] for a in p]
-            tag = '_x%s_%d' % (c['name'][:12], n)
-            try:
-                obs = R.run_schedule(json.loads(json.dumps(spec)), R.Exact(acts), tag=tag, drain=False)
-            except Exception as e:  # noqa: BLE001
-                broken.append(dict(diffs=['harness error on %s: %s: %s' % (c['name'], type(e).__name__, e)], spec=spec, actions=acts))
-                continue
-            n += 1
-            st['transitions'] += 1
-            if obs['missing']:
-                broken.append(dict(diffs=['%s: the implementation had no such outstanding completion: %d of the actions' % (c['name'], obs['missing'])],
-                                   spec=spec, actions=acts, tag=tag))
-                continue
-            resm = model.run(spec, obs['actions'], obs['orders'], obs['descendants'], pools=pools)
-            if resm.get('ambiguous_orders'):
-                st['ambiguous_orders'] += 1
-                continue
-            d = M.compare(obs, resm)
-            if d:
-                st['disagree'] += 1
-                if len(broken) < 4:
-                    broken.append(dict(diffs=['%s: %s' % (c['name'], x) for x in d[:3]], spec=spec, actions=acts, tag=tag,
-                                       hashseed=os.environ.get('PYTHONHASHSEED')))
+        for bk in bad:
+            st['disagree'] += 1
+            if len(broken) < 4:
+                broken.append(dict(bk, diffs=['%s: %s' % (c['name'], x) for x in bk['diffs']], hashseed=os.environ.get('PYTHONHASHSEED')))
         per[c['name']] = n
     model.close()
     print(json.dumps(dict(stats=dict(st), per_program=per, k2_broken=broken, wall=time.time() - t0)))
